@@ -30,6 +30,12 @@ def plan(seed, subbatch):
     tf_s = tf_seconds(tf)
     n = cfg.choice((cfg.randint(1, 12), cfg.randint(5, 60), cfg.randint(20, 300)))
     route = cfg.choice(ROUTES)
+    level = None
+    if cfg.random() < 0.12:
+        # two collapsing levels: a finer Hexital-level timeframe that divides the member's
+        finer = [t for t in world.TIMEFRAMES if tf_s % tf_seconds(t) == 0 and base_s <= tf_seconds(t) < tf_s]
+        if finer:
+            route, level = "hexital_two_level", cfg.choice(finer)
     faults = {}
     burst = None
     p_empty = 0.0
@@ -77,7 +83,7 @@ def plan(seed, subbatch):
     ops += world.schedule(feed, rows[k:], sizes, extras)
     fired["preload_%s" % ("none" if k == 0 else "one" if k == 1 else "all" if k == len(rows) else "some")] += 1
     return {"format": 1, "property": ID, "seed": seed, "subbatch": subbatch,
-            "config": {"route": route, "tf": tf, "base_s": base_s,
+            "config": {"route": route, "tf": tf, "base_s": base_s, "level_tf": level,
                        # timezone-aware streams (fixed offsets that do not divide the larger timeframes)
                        "utc_offset_min": cfg.choice((None, None, None, 60, 330, -210, 345))},
             "ops": ops, "fired": dict(fired)}
@@ -109,7 +115,8 @@ def _execute(trace):
                 if kind == "new":
                     rows = op.get("preload") or []
                     delivered.extend(rows)
-                    subject, manager, view = run.call(len(rows), build_route, route, tf, rows)
+                    subject, manager, view = run.call(len(rows), build_route, route, tf, rows, False, None, None, None,
+                                                      cfg.get("level_tf"))
                 elif subject is None:
                     continue
                 elif kind == "append":
